@@ -291,6 +291,10 @@ def run(ctx, res):
                 tasks.append(("reg", "android-safetynet", ch, "response", lo, lo + CHUNK * 4, pad))
     work.driver_ok = ctx.driver_ok
     corr.merge(res, corr.parallel(work, tasks))
+    # keys under which nothing can be signed (modulus too small for the hash): should a response be accepted against one,
+    # a single-bit change must still be refused
+    from .C01 import small_modulus_sweep
+    small_modulus_sweep(res, flip=True)
     res.exhaustive = True
     res.rule = ("for each accepted ceremony (quick: 4 authentication algorithms and packed / fido-u2f / tpm; thorough: all algorithms and "
                 "all signed formats) EVERY bit position of authenticatorData, clientDataJSON and the signature / certInfo / JWS is flipped "
